@@ -15,7 +15,7 @@ params:
              throttle: count                  timeout: T (ticks)
   jobs     [{"st": stack, "S": submit tick, "D": duration(s) per attempt (0 = never, manual only),
              "script": [["V"|"E"|"F", tag], ...] outcome per attempt, "C": delegate future cancellable (manual),
-             "K": tick of a client cancel() or None, "mfail": map / flat_map fn raises, "polls": polls needed}]
+             "K": tick of a client cancel() or None, "CD": ticks the delegate future's cancel() takes before refusing (manual), "mfail": map / flat_map fn raises, "polls": polls needed}]
   comb     [{"op": "zip" | "or" | "and" | "map", "ins": [job numbers (1-based)], "at": tick, "K": cancel tick}]
   snaps    ticks at which the main thread waits for quiescence and snapshots the registry
   shutdown [{"st": stack, "at": tick, "wait": bool}]
@@ -298,7 +298,7 @@ def build(p):
             up = [LAYER_TYPE[l["t"]] for l in layers] + [None]
             exid, name = new_exec(base, -1)
             if base == "manual":
-                plan = {j + 1: {"dur": jb.get("D", 100), "cancellable": jb.get("C", True)}
+                plan = {j + 1: {"dur": jb.get("D", 100), "cancellable": jb.get("C", True), "cancel_dur": jb.get("CD", 0)}
                         for j, jb in enumerate(jobs) if jb.get("st", 0) == si}
                 ex, typ = ManualExecutor(plan, tag="base%d" % si), 0
             elif base == "sync":
